@@ -169,9 +169,9 @@ theorem mem_pushNew {x : Pat} {acc l : List Pat} : x ∈ pushNew acc l ↔ x ∈
     · rw [ih]
       simp [or_assoc]
 
-/-- merging two `expected/found` reasons: the union of the expected sets, the first `found` -/
+/-- merging two `expected/found` reasons: the union of the expected sets, the first `found` that is present -/
 theorem flatMerge_ef_ef (ea eb : List Pat) (fa fb : Option Nat) :
-    ∃ e', (Reason.ef ea fa).flatMerge (.ef eb fb) = .ef e' fa ∧ ∀ x, x ∈ e' ↔ x ∈ ea ∨ x ∈ eb := by
+    ∃ e', (Reason.ef ea fa).flatMerge (.ef eb fb) = .ef e' (fa.or fb) ∧ ∀ x, x ∈ e' ↔ x ∈ ea ∨ x ∈ eb := by
   simp only [Reason.flatMerge]
   split
   · exact ⟨_, rfl, fun x => by rw [mem_pushNew]; exact Or.comm⟩
@@ -265,8 +265,8 @@ theorem flatMerge_assoc (a b c : Reason) :
         obtain ⟨e1, h1, m1⟩ := flatMerge_ef_ef ea eb fa fb
         obtain ⟨e2, h2, m2⟩ := flatMerge_ef_ef eb ec fb fc
         rw [h1, h2]
-        obtain ⟨e3, h3, m3⟩ := flatMerge_ef_ef e1 ec fa fc
-        obtain ⟨e4, h4, m4⟩ := flatMerge_ef_ef ea e2 fa fb
+        obtain ⟨e3, h3, m3⟩ := flatMerge_ef_ef e1 ec (fa.or fb) fc
+        obtain ⟨e4, h4, m4⟩ := flatMerge_ef_ef ea e2 fa (fb.or fc)
         rw [h3, h4]
         intro p
         rw [m3, m4, m1, m2, or_assoc]
@@ -605,13 +605,14 @@ theorem mergeAll_rich_custom {e : Err} {m : Nat} (t : List Loc) (h : e.reason = 
     apply ih
     simp [h]
 
-/-- no custom reason around: the expected sets are united, the first `found` is kept -/
+/-- no custom reason around: the expected sets are united; `found` is the first one present (the start's if it has one) -/
 theorem mergeAll_rich_ef {e : Err} {ex : List Pat} {f : Option Nat} (t : List Loc)
     (h : e.reason = .ef ex f) (hn : ∀ ev ∈ t, ev.err.reason.isCustom = false) :
-    ∃ ex', (mergeAll .rich e t).reason = .ef ex' f ∧
-      ∀ x, x ∈ ex' ↔ x ∈ ex ∨ ∃ ev ∈ t, ∃ e2 f2, ev.err.reason = .ef e2 f2 ∧ x ∈ e2 := by
-  induction t generalizing e ex with
-  | nil => exact ⟨ex, h, by simp⟩
+    ∃ ex' f', (mergeAll .rich e t).reason = .ef ex' f' ∧
+      (∀ x, x ∈ ex' ↔ x ∈ ex ∨ ∃ ev ∈ t, ∃ e2 f2, ev.err.reason = .ef e2 f2 ∧ x ∈ e2) ∧
+      (f.isSome = true → f' = f) ∧ (f' = f ∨ ∃ ev ∈ t, ∃ e2, ev.err.reason = .ef e2 f') := by
+  induction t generalizing e ex f with
+  | nil => exact ⟨ex, f, h, by simp, fun _ => rfl, Or.inl rfl⟩
   | cons y t ih =>
     rw [mergeAll_cons]
     have hy := hn y List.mem_cons_self
@@ -619,30 +620,41 @@ theorem mergeAll_rich_ef {e : Err} {ex : List Pat} {f : Option Nat} (t : List Lo
     | custom m => simp [hyr] at hy
     | ef ey fy =>
       obtain ⟨e1, h1, m1⟩ := flatMerge_ef_ef ex ey f fy
-      have hr : (ErrKind.rich.merge e y.err).reason = .ef e1 f := by
+      have hr : (ErrKind.rich.merge e y.err).reason = .ef e1 (f.or fy) := by
         simp [h, hyr, h1]
-      obtain ⟨ex', hx', mx'⟩ := ih hr (fun ev hev => hn ev (List.mem_cons_of_mem _ hev))
-      refine ⟨ex', hx', ?_⟩
-      intro x
-      rw [mx', m1]
-      constructor
-      · rintro ((hx | hx) | ⟨ev, hev, e2, f2, hr2, hx⟩)
-        · exact Or.inl hx
-        · exact Or.inr ⟨y, List.mem_cons_self, ey, fy, hyr, hx⟩
-        · exact Or.inr ⟨ev, List.mem_cons_of_mem _ hev, e2, f2, hr2, hx⟩
-      · rintro (hx | ⟨ev, hev, e2, f2, hr2, hx⟩)
-        · exact Or.inl (Or.inl hx)
-        · rcases List.mem_cons.mp hev with rfl | hev
-          · rw [hyr] at hr2; cases hr2
-            exact Or.inl (Or.inr hx)
-          · exact Or.inr ⟨ev, hev, e2, f2, hr2, hx⟩
+      obtain ⟨ex', f', hx', mx', hf1, hf2⟩ := ih hr (fun ev hev => hn ev (List.mem_cons_of_mem _ hev))
+      refine ⟨ex', f', hx', ?_, ?_, ?_⟩
+      · intro x
+        rw [mx', m1]
+        constructor
+        · rintro ((hx | hx) | ⟨ev, hev, e2, f2, hr2, hx⟩)
+          · exact Or.inl hx
+          · exact Or.inr ⟨y, List.mem_cons_self, ey, fy, hyr, hx⟩
+          · exact Or.inr ⟨ev, List.mem_cons_of_mem _ hev, e2, f2, hr2, hx⟩
+        · rintro (hx | ⟨ev, hev, e2, f2, hr2, hx⟩)
+          · exact Or.inl (Or.inl hx)
+          · rcases List.mem_cons.mp hev with rfl | hev
+            · rw [hyr] at hr2; cases hr2
+              exact Or.inl (Or.inr hx)
+            · exact Or.inr ⟨ev, hev, e2, f2, hr2, hx⟩
+      · intro hs
+        cases f with
+        | none => simp at hs
+        | some v => exact hf1 (by simp)
+      · rcases hf2 with hf2 | ⟨ev, hev, e2, hr2⟩
+        · cases f with
+          | some v => left; simpa using hf2
+          | none =>
+            simp only [Option.none_or] at hf2
+            right; exact ⟨y, List.mem_cons_self, ey, by rw [hyr, hf2]⟩
+        · right; exact ⟨ev, List.mem_cons_of_mem _ hev, e2, hr2⟩
 
 /-- the first custom reason among the merged events wins over an `expected/found` start -/
 theorem mergeAll_rich_ef_custom {e : Err} {ex : List Pat} {f : Option Nat} (t : List Loc) {ev : Loc} {m : Nat}
     (h : e.reason = .ef ex f)
     (hf : t.find? (fun ev => ev.err.reason.isCustom) = some ev) (hm : ev.err.reason = .custom m) :
     (mergeAll .rich e t).reason = .custom m := by
-  induction t generalizing e ex with
+  induction t generalizing e ex f with
   | nil => simp at hf
   | cons y t ih =>
     rw [mergeAll_cons]
@@ -657,7 +669,7 @@ theorem mergeAll_rich_ef_custom {e : Err} {ex : List Pat} {f : Option Nat} (t : 
       have hf' : t.find? (fun ev => ev.err.reason.isCustom) = some ev := by
         simpa [List.find?_cons, hyr] using hf
       obtain ⟨e1, h1, _⟩ := flatMerge_ef_ef ex ey f fy
-      have hr : (ErrKind.rich.merge e y.err).reason = .ef e1 f := by
+      have hr : (ErrKind.rich.merge e y.err).reason = .ef e1 (f.or fy) := by
         simp [h, hyr, h1]
       exact ih hr hf'
 
@@ -753,8 +765,8 @@ theorem summ_expected {evs : List Loc} {l : Loc} (h : summ .rich evs = some l)
       intro ev hev
       have := (hmem ev).mp (List.mem_cons_of_mem _ hev)
       exact Reason.isCustom_false_iff.mpr (hn ev this.1 this.2)
-    obtain ⟨ex', hx', mx'⟩ := mergeAll_rich_ef tl hr hn'
-    refine ⟨ex', f, by rw [he]; exact hx', ?_⟩
+    obtain ⟨ex', f', hx', mx', _, _⟩ := mergeAll_rich_ef tl hr hn'
+    refine ⟨ex', f', by rw [he]; exact hx', ?_⟩
     intro x
     rw [mx']
     constructor
@@ -768,11 +780,13 @@ theorem summ_expected {evs : List Loc} {l : Loc} (h : summ .rich evs = some l)
         exact Or.inl hx
       · exact Or.inr ⟨ev, hev', e2, f2, hr2, hx⟩
 
-/-- D3 addendum: the `found` of the result is the `found` of the first event at the furthest position -/
+/-- D3 addendum: the `found` of the result is the `found` of an event at the furthest position — the first event's if it
+    has one, otherwise the first one present among the later events there -/
 theorem summ_found {evs : List Loc} {l : Loc} (h : summ .rich evs = some l)
     (hn : ∀ ev ∈ evs, ev.pos = l.pos → ∀ m, ev.err.reason ≠ .custom m) :
-    ∃ hne : evs.filter (·.pos = l.pos) ≠ [], ∃ exp ex f, l.err.reason = .ef exp f ∧
-      ((evs.filter (·.pos = l.pos)).head hne).err.reason = .ef ex f := by
+    ∃ hne : evs.filter (·.pos = l.pos) ≠ [], ∃ exp ex f f', l.err.reason = .ef exp f' ∧
+      ((evs.filter (·.pos = l.pos)).head hne).err.reason = .ef ex f ∧ (f.isSome = true → f' = f) ∧
+      ∃ ev ∈ evs, ev.pos = l.pos ∧ ∃ e2, ev.err.reason = .ef e2 f' := by
   obtain ⟨hd, tl, hfl, he⟩ := summ_eq_mergeAll h
   refine ⟨summ_filter_ne_nil h, ?_⟩
   have hmem : ∀ ev, ev ∈ hd :: tl ↔ ev ∈ evs ∧ ev.pos = l.pos := by
@@ -785,10 +799,14 @@ theorem summ_found {evs : List Loc} {l : Loc} (h : summ .rich evs = some l)
       intro ev hev
       have := (hmem ev).mp (List.mem_cons_of_mem _ hev)
       exact Reason.isCustom_false_iff.mpr (hn ev this.1 this.2)
-    obtain ⟨ex', hx', _⟩ := mergeAll_rich_ef tl hr hn'
-    refine ⟨ex', ex, f, by rw [he]; exact hx', ?_⟩
-    simp only [hfl, List.head_cons]
-    exact hr
+    obtain ⟨ex', f', hx', _, hf1, hf2⟩ := mergeAll_rich_ef tl hr hn'
+    refine ⟨ex', ex, f, f', by rw [he]; exact hx', ?_, hf1, ?_⟩
+    · simp only [hfl, List.head_cons]
+      exact hr
+    · rcases hf2 with hf2 | ⟨ev, hev, e2, hr2⟩
+      · exact ⟨hd, hhd.1, hhd.2, ex, by rw [hr, hf2]⟩
+      · have := (hmem ev).mp (List.mem_cons_of_mem _ hev)
+        exact ⟨ev, this.1, this.2, e2, hr2⟩
 
 #print axioms mergeAlt_summ
 #print axioms summ_expected
